@@ -209,9 +209,12 @@ class struct_generator(_composite_generator_base):
             cls._ALIGNMENT = max((t._OPTIONAL_ALIGNMENT if t._OPTIONAL else t._ALIGNMENT) for t in cls._types())
 
         alignment = 1
-        for type_ in reversed(list(cls._types())):
-            if issubclass(type_, (base_array, bytes)) and type_._DYNAMIC:
-                type_._PARTIAL_ALIGNMENT = alignment
+        for field in reversed(cls._descriptor):
+            type_ = field.type
+            if type_._DYNAMIC:
+                field.partial_alignment = alignment
+                if issubclass(type_, (base_array, bytes)):
+                    type_._PARTIAL_ALIGNMENT = alignment
                 alignment = 1
             alignment = max(field_alignment(type_), alignment)
         if not issubclass(cls, struct_packed) and cls._descriptor:
